@@ -286,7 +286,7 @@ def run(ctx):
                 "fact_event_list_read_modify_write_in_one_transaction", "overlapping_atomic_adds_commute", "stale_read_add_loses_update_witness",
                 "rolled_back_add_keeps_the_shelves", "redelivery_after_rollback_is_the_undisturbed_add",
                 "stale_cache_entries_are_confined_and_repaired", "rolled_back_add_leaves_stale_cache_witness",
-                "fact_cache_update_inside_write_closure"]
+                "fact_cache_update_inside_write_closure", "conflicted_entry_is_right_after_every_committed_add"]
     for r in required:
         if not any(t.endswith("Props." + r) for t in thms):
             ctx.oblige("thm-present:" + r, False, "theorem missing or its module does not build")
